@@ -48,6 +48,23 @@ def brute(infr, inam, edges, mode):
     return H, H1
 
 
+def brute_fast(infr, inam, edges, mode):
+    infr = np.asarray(infr, dtype=float)
+    T, M = infr.shape
+    nb = len(edges) - 1
+    b = (infr[:, :, None] >= edges[None, None, :]).sum(axis=2) - 1
+    b[(infr < edges[0]) | (infr >= edges[-1])] = -1
+    a = inam ** 2 if mode == 'energy' else inam
+    H = np.zeros((nb, T))
+    H1 = np.zeros((nb, M))
+    ok = b >= 0
+    tt = np.broadcast_to(np.arange(T)[:, None], (T, M))
+    mm = np.broadcast_to(np.arange(M)[None, :], (T, M))
+    np.add.at(H, (b[ok], tt[ok]), a[ok])
+    np.add.at(H1, (b[ok], mm[ok]), a[ok])
+    return H, H1
+
+
 def pool(edges):
     vals = []
     for e in edges:
@@ -59,7 +76,7 @@ def pool(edges):
 
 def compare(ctx, infr, inam, edges, mode, case, tag):
     from emd import spectra as SP
-    H, H1 = brute(infr, inam, edges, mode)
+    H, H1 = brute(infr, inam, edges, mode) if infr.size <= 4000 else brute_fast(infr, inam, edges, mode)
     tot = np.abs(inam ** 2 if mode == 'energy' else inam).sum() or 1.0
     tol = 1e-12 * tot
     infr64 = np.asarray(infr, dtype=float)
@@ -136,8 +153,11 @@ def run_shard(ctx):
     for i in range(n):
         if ctx.out_of_time():
             break
-        T, M = int(rng.integers(1, 51)), int(rng.integers(1, 5))
-        nb = int(rng.integers(1, 25))
+        T, M = (int(rng.integers(1, 51)) if rng.random() > .02 else int(rng.integers(1000, 4000))), int(rng.integers(1, 5))
+        nb = int(rng.integers(1, 25)) if rng.random() < .8 else int(rng.integers(25, 300))
+        if i == 0 and ctx.shard % 4 == 0:
+            T, M = int(rng.integers(270000, 300000)), 2          # one very long recording per four shards
+            ctx.count('very_long_recordings')
         scale = gens.pick(rng, ['linear', 'log'])
         lo = float(rng.uniform(.5, 5))
         hi = lo + float(rng.uniform(1, 40))
